@@ -542,15 +542,21 @@ def c10_post(ctx, results, wsname="c10"):
             counters["modules_run"] += 1
             lines = {}
             for l in got["lines"]:
-                if l.startswith("P "):
-                    _, idx, rest = l.split(" ", 2)
-                    lines[int(idx)] = rest
-            for i, sent in enumerate(info["sentences"]):
+                if l.startswith("P ") or l.startswith("R "):
+                    tag, idx, rest = l.split(" ", 2)
+                    lines[(tag, int(idx))] = rest
+            todo = [("P", i, sent) for i, sent in enumerate(info["sentences"])]
+            # LR modules also parse every sentence with one reused parser object, each after a failing parse
+            todo += [("R", i, sent) for i, sent in enumerate(info["sentences"]) if ("R", i) in lines]
+            for tag, i, sent in todo:
                 counters["evaluations"] += 1
-                line = lines.get(i, "<missing>")
-                case = {"info": dict(info, sentences=[sent]), "output": line[:1500]}
+                line = lines.get((tag, i), "<missing>")
+                case = {"info": dict(info, sentences=[sent]), "output": line[:1500], "mode": "fresh parser" if tag == "P" else "parser object reused after a failed parse"}
+                if tag == "R":
+                    counters["reused_parser_parses"] = counters.get("reused_parser_parses", 0) + 1
+                pre = "" if tag == "P" else "reuse-"
                 if line.startswith("PANIC"):
-                    recs.append(dict(k="viol", prop="C10", sig="panic:%s:%d" % (sig_base, i), what="building the AST panicked on %r" % sent["input"], case=case))
+                    recs.append(dict(k="viol", prop="C10", sig="%spanic:%s:%d" % (pre, sig_base, i), what="building the AST panicked on %r (%s)" % (sent["input"], case["mode"]), case=case))
                     continue
                 if line.startswith("ERR") or line == "<missing>":
                     if st["glr"]:
@@ -560,11 +566,11 @@ def c10_post(ctx, results, wsname="c10"):
                     continue
                 problems, dbg = c10_judge_output(sent, st["glr"], st["loc_info"], line)
                 counters["asts_judged"] += 1
-                if sent["unique"]:
+                if sent["unique"] and tag == "P":
                     counters["unique_derivations"] += 1
                     outputs[(member, info["group"], st["loc_info"], i, st["glr"])] = (dbg, case, sig_base)
                 for kind, text in problems:
-                    recs.append(dict(k="viol", prop="C10", sig="%s:%s:%d" % (kind, sig_base, i), what="%s default AST of %r: %s" % ("GLR" if st["glr"] else "LR", sent["input"][:80], text[:500]), case=case))
+                    recs.append(dict(k="viol", prop="C10", sig="%s%s:%s:%d" % (pre, kind, sig_base, i), what="%s default AST of %r (%s): %s" % ("GLR" if st["glr"] else "LR", sent["input"][:80], case["mode"], text[:500]), case=case))
                 if not problems and len(sent["content"]) >= 2:
                     distinct["nontrivial"].add(hashlib.sha1((info["grammar"] + sent["input"]).encode()).hexdigest()[:16])
                     if len(samples) < 3:
